@@ -85,6 +85,16 @@ def parse_verdicts(out):
     return res
 
 
+def _die_with_parent():
+    """a TLC child must not outlive a check that is killed (PR_SET_PDEATHSIG = 1, SIGKILL)"""
+    try:
+        import ctypes
+        import signal
+        ctypes.CDLL('libc.so.6', use_errno=True).prctl(1, signal.SIGKILL)
+    except Exception:  # pylint: disable=broad-except
+        pass
+
+
 def run_tlc(module, cfg_text, workdir, env=None, workers=1, timeout=3600, extra=(), tag='mc', heap='3g'):
     """one TLC run in SPEC_DIR; returns (stdout, returncode, seconds)"""
     os.makedirs(workdir, exist_ok=True)
@@ -100,7 +110,7 @@ def run_tlc(module, cfg_text, workdir, env=None, workers=1, timeout=3600, extra=
     t0 = time.time()
     try:
         p = subprocess.run(_java_cmd(module, cfg_path, metadir, workers, extra, heap=heap), cwd=SPEC_DIR, env=e,
-                           stdout=subprocess.PIPE, stderr=subprocess.STDOUT, text=True, timeout=timeout)
+                           stdout=subprocess.PIPE, stderr=subprocess.STDOUT, text=True, timeout=timeout, preexec_fn=_die_with_parent)
     except subprocess.TimeoutExpired as exc:
         raise MachineryError(f'TLC timed out after {timeout}s on {module} ({tag})') from exc
     finally:
